@@ -30,7 +30,8 @@ META = {
     "design_ref": "DESIGN.md §4 C07",
 }
 
-TIME_LIMIT = 1.5  # seconds for one real call (only a non-terminating densify ever gets near it)
+TIME_LIMIT = 1.0  # seconds for one real call (only a non-terminating densify ever gets near it)
+_TIMEOUTS = [0]   # after a few genuine hangs the limit drops so that a broken tree is still checked quickly
 
 
 class Timeout(Exception):
@@ -38,19 +39,24 @@ class Timeout(Exception):
 
 
 class time_limit:
-    def __init__(self, secs: float = TIME_LIMIT):
+    def __init__(self, secs: float = TIME_LIMIT, risky: bool = False):
         self.secs = secs
+        self.risky = risky   # a call that can only hang if the densify loop is broken (resolution <= 0 / auto)
 
     def _h(self, *_):
         raise Timeout()
 
     def __enter__(self):
+        if self.risky and _TIMEOUTS[0] >= 12:
+            raise Timeout()  # the hang has been demonstrated a dozen times already; do not pay for it again
         self.old = signal.signal(signal.SIGALRM, self._h)
-        signal.setitimer(signal.ITIMER_REAL, self.secs)
+        signal.setitimer(signal.ITIMER_REAL, self.secs if _TIMEOUTS[0] < 3 else min(self.secs, 0.25))
 
-    def __exit__(self, *a):
+    def __exit__(self, et, ev, tb):
         signal.setitimer(signal.ITIMER_REAL, 0)
         signal.signal(signal.SIGALRM, self.old)
+        if et is Timeout:
+            _TIMEOUTS[0] += 1
         return False
 
 
@@ -230,6 +236,49 @@ def oracle_densify(R: Run, coords, r: float, out, where: str, tag: str):
                 ok_on = False
     R.oracle(ok_on, "densify-added-vertex-off-edge", case, f"{where}: an added vertex is not strictly inside its edge",
              sig=f"on-edge|{tag}", trivial=not any(cnt))
+    # 4. two-sided: the number of added vertices per edge is exactly #{k >= 1 : k r < len} (decided on squares),
+    #    and the k-th added vertex sits at arc length k r.  Judged only where binary64 cannot blur the count:
+    #    len/r at least 1e-9 (relative) away from an integer, or the whole computation exact.
+    j = 0
+    for (p, q), k in zip(zip(coords[:-1], coords[1:]), cnt):
+        seg = out[j + 1: j + 1 + k]
+        j += k + 1
+        D2 = d2(p, q)
+        if D2 == 0 or rr <= 0:
+            continue
+        n = 0
+        lo = int(math.sqrt(float(D2 / (rr * rr))))
+        for cand in range(max(0, lo - 2), lo + 3):
+            if cand >= 1 and (cand * rr) ** 2 < D2:
+                n = cand
+        ratio = math.sqrt(float(D2)) / float(rr)
+        exact_inputs = (p[0] == q[0] or p[1] == q[1]) and is_dyadic(rr) and rr.denominator <= 2**20 and (
+            abs(F(q[0]) - F(p[0])) + abs(F(q[1]) - F(p[1]))) < 2**40 and (p[0] == 0 or p[1] == 0 or True)
+        axis_exact = exact_inputs and _diff_exact(p, q)
+        away = abs(ratio - round(ratio)) > 1e-9 * max(1.0, ratio)
+        if axis_exact or away:
+            R.oracle(k == n, "densify-wrong-vertex-count", {**case, "edge": [list(map(float, p)), list(map(float, q))]},
+                     f"{where}: edge {p}->{q} of length {math.sqrt(float(D2)):.17g} got {k} added vertices, "
+                     f"resolution {r} asks for {n}", sig=f"count|{tag}|" + ("boundary" if not away else "plain"))
+        if k == n and k > 0:
+            ln = F(math.sqrt(float(D2)))
+            scale = max(abs(F(p[0])), abs(F(p[1])), abs(F(q[0])), abs(F(q[1])), 1)
+            tol = scale * Fraction(1, 10**9) + ln * Fraction(1, 10**9)
+            okp = True
+            for i, v in enumerate(seg, 1):
+                t = i * rr / ln
+                ex, ey = F(p[0]) + t * (F(q[0]) - F(p[0])), F(p[1]) + t * (F(q[1]) - F(p[1]))
+                if abs(F(v[0]) - ex) > tol or abs(F(v[1]) - ey) > tol:
+                    okp = False
+            R.oracle(okp, "densify-vertex-not-at-multiple-of-resolution", {**case, "edge": [list(map(float, p)), list(map(float, q))]},
+                     f"{where}: added vertices of edge {p}->{q} are not at arc lengths r, 2r, ...", sig=f"position|{tag}",
+                     trivial=True)
+
+
+def _diff_exact(p, q) -> bool:
+    """the coordinate difference of an axis-parallel edge is computed exactly in binary64"""
+    dx, dy = q[0] - p[0], q[1] - p[1]
+    return F(dx) == F(q[0]) - F(p[0]) and F(dy) == F(q[1]) - F(p[1])
 
 
 class Fake:
@@ -326,7 +375,7 @@ def shapes_for(rng, fam: str):
 def real_densify(gm, coords, r):
     with warnings.catch_warnings():
         warnings.simplefilter("ignore")
-        with time_limit():
+        with time_limit(risky=not r > 0):
             return gm.densify(list(coords), r)
 
 
@@ -350,15 +399,28 @@ def densify_case(R: Run, gm, coords, r: float, tag: str):
         return pts_s(out)
 
     if cls == "rational":
-        # exact length but r/L not dyadic: binary64 rounds the interpolated vertices; counts stay exact,
-        # positions are judged by the oracle
-        out = None
-        try:
-            out = real_densify(gm, coords, r)
-        except BaseException:  # pylint: disable=broad-except
-            pass
-        if out is not None:
-            oracle_densify(R, coords, r, out, "densify", tag + "|rounded")
+        # exact length but r/L not dyadic: binary64 rounds the interpolated vertices, so positions are judged by the
+        # oracle only; the loop counts are still exact whenever d = k*r and the length are exact doubles
+        line = f"c07 counts {frac_s(r)} {pts_s(coords)}"
+        exact_loop = is_dyadic(rr) and all(
+            (p[0] == q[0] or p[1] == q[1]) and _diff_exact(p, q) for p, q in zip(coords[:-1], coords[1:]))
+
+        def fc():
+            try:
+                out = real_densify(gm, coords, r)
+            except BaseException as e:  # pylint: disable=broad-except
+                box["exc"] = e
+                return err_s(e)
+            box["out"] = out
+            c = counts_of(coords, out)
+            return "COUNTS [" + ",".join(map(str, c)) + "]" if c is not None else "COUNTS ?"
+
+        if exact_loop:
+            R.corr(line, fc, sig=f"densify|{tag}|counts-exact")
+        else:
+            fc()
+        if "out" in box:
+            oracle_densify(R, coords, r, box["out"], "densify", tag + "|rounded")
         return
     R.corr(line, f, sig=f"densify|{tag}|{cls}" + ("|trivial" if len(coords) < 2 else ""))
     if "out" in box and coords:
@@ -407,6 +469,39 @@ def run_densify(R: Run):
     for L in (1.0, 5.0, 8.0):
         for r in (L, L / 2, L / 4, 2 * L, L * 0.75):
             densify_case(R, gm, [(2.0, 3.0), (2.0 + L, 3.0)], r, "edge=r")
+    # --- edge length within a hair of a multiple of the resolution (axis-parallel, dyadic r: d = k*r and the
+    #     length are exact doubles, so even 1 ulp decides the count)
+    deltas = [0.0, 1e-6, 1e-9, 1e-10, 1e-11, 1e-13, 2.0**-40]
+    for r in (0.5, 1.0, 3.0, 0.125):
+        for k in (1, 2, 3, 7, 20):
+            base = k * r
+            ulp = math.ulp(base)
+            for dl in deltas + [ulp, 2 * ulp]:
+                for sgn in (1, -1):
+                    L = base + sgn * dl
+                    if L <= 0:
+                        continue
+                    for vec in ((L, 0.0), (-L, 0.0), (0.0, L), (0.0, -L)):
+                        densify_case(R, gm, [(0.0, 0.0), vec], r, "near-multiple")
+                    # the same off the axes (position of the edge must not matter): start at a dyadic offset whose
+                    # sum with L is still exact is not guaranteed, so these are judged by the count oracle only
+                    densify_case(R, gm, [(1024.0, -512.0), (1024.0 + L, -512.0)], r, "near-multiple-off-axis")
+    # --- diagonal edges of length k*r*(1 +- eps): counts judged by the two-sided oracle
+    for _ in range(R.pick(300, 3000)):
+        ang = rng.uniform(-math.pi, math.pi)
+        r = rng.choice([0.5, 1.0, 2.5, 10.0, 1 / 3])
+        k = rng.randint(1, 12)
+        L = k * r * (1 + rng.choice([-1, 1]) * rng.choice([1e-6, 1e-8, 3e-9]))
+        ox, oy = rng.choice(ORIGINS)
+        densify_case(R, gm, [(ox, oy), (ox + L * math.cos(ang), oy + L * math.sin(ang))], r, "near-multiple-diag")
+    # --- huge coordinates (binary64 spacing of the coordinates up to 0.125)
+    for _ in range(R.pick(200, 2000)):
+        ox, oy = (rng.choice([-1, 1]) * 2.0 ** rng.randint(30, 50) for _ in range(2))
+        s = max(math.ulp(max(abs(ox), abs(oy))) * 64, 1.0)
+        pts = [(ox, oy)]
+        for _ in range(rng.randint(1, 3)):
+            pts.append((pts[-1][0] + rng.randint(-12, 12) * s, pts[-1][1] + rng.randint(-12, 12) * s))
+        densify_case(R, gm, pts, s * rng.choice([1, 2, 3, 8]), "huge")
     densify_case(R, gm, [], 1.0, "degenerate")
     densify_case(R, gm, [(1.0, 2.0)], 1.0, "degenerate")
     densify_case(R, gm, [(1.0, 2.0), (1.0, 2.0)], 1.0, "degenerate")
@@ -449,7 +544,7 @@ def run_float_stream(R: Run):
 def seg_real(gm, shp, r):
     with warnings.catch_warnings():
         warnings.simplefilter("ignore")
-        with time_limit():
+        with time_limit(risky=not r > 0):
             return gm.Geometry(shp, "EPSG:3857").segmented(r)
 
 
@@ -587,7 +682,7 @@ def run_to_crs_model(R: Run):
                             try:
                                 with warnings.catch_warnings():
                                     warnings.simplefilter("ignore")
-                                    with time_limit():
+                                    with time_limit(risky=(rv == "auto" or (isinstance(rv, float) and rv <= 0))):
                                         out = g.to_crs(et[2], resolution=rv)
                             except BaseException as e:  # pylint: disable=broad-except
                                 box["exc"] = e
@@ -751,7 +846,7 @@ def run_to_crs_pyproj(R: Run):
         try:
             with warnings.catch_warnings():
                 warnings.simplefilter("ignore")
-                with time_limit():
+                with time_limit(risky=True):
                     out = g.to_crs(dst, resolution="auto")
             R.oracle(skel_of(out.geom) == skel_of(shp2), "to-crs-changes-structure", case, "", sig=f"auto|{kind}")
         except Timeout:
